@@ -8,7 +8,11 @@ is read back.  The extracted model (run_html_exec) must produce the same matrix 
 extracted oracle (spec_check) is applied to what the implementation produced.  A leaf harness
 (harness/html_leaf.c, #include "regress-html.c") ties render_rate, duration_delta, render_duration, the status
 table and the three comparison functions to the model on grids.  The duplicate-suite stream also runs under an
-AddressSanitizer build (the thorough tier runs every stream under it)."""
+AddressSanitizer build (the thorough tier runs every stream under it).
+
+Signatures: pass-rate-truncated (defect D8, repaired in /repo ea4de2c) and column-pointer-out-of-bounds (defect D9,
+repaired in 4acd4e2) come back with the replays of corpus/C14 when a repair is reverted;
+run-shown-under-wrong-invocation (runs matched to columns by start time only) is a known finding."""
 import glob, hashlib, json, os, re, shutil, subprocess
 from concurrent.futures import ThreadPoolExecutor
 import common
@@ -635,7 +639,7 @@ def run(ctx, n=None, streams=None):
                 'kind, tags/dmesg/comment/patches present or not, attic/hidden/plain-file entries; non-trivial = exit 0 '
                 'with at least two invocations, two suites and invocations that differ in the suites they ran; distinct '
                 'by content hash')
-    n = n or ctx.budget(220, 5000)
+    n = n or ctx.budget(220, 3000)
     mix = streams or (['plain'] * 9 + ['tie'] * 3 + ['dup'] * 3 + ['error'] * 3 + ['wide'] * 1)
     cases = load_corpus() + [gen_case(ctx.rng, mix[i % len(mix)]) for i in range(n)]
     res.samples = [{'stream': c.get('stream'), 'features': features(c)} for c in cases[:4]]
